@@ -87,6 +87,8 @@ func nontrivial(t []string, out string) bool {
 
 func gen(g *hx.Gen) {
 	witnessCoinbase(g)
+	witnessRegisterAsset(g)
+	witnessDupCoinbase(g)
 	nh := g.N(10, 60)
 	steps := g.N(45, 120)
 	for i := 0; i < nh; i++ {
@@ -107,6 +109,115 @@ func witnessCoinbase(g *hx.Gen) {
 	br = regnet.Extend(br, b1)
 	h.Deliver(h.Block(br, nil, regnet.MineOpts{Miner: 1, ExtraReward: 252}))
 	h.Observe(true, 4)
+}
+
+// otherTx builds a signed non-transfer transaction (kind ra / rc) that spends one coin like a transfer.
+func otherTx(kind string, nonce uint64, co regnet.Coin, to int) interfaces.Transaction {
+	ts := &regnet.TxSpec{Kind: kind, Nonce: fmt.Sprintf("%016x", nonce),
+		Ins:  []regnet.InSpec{{TxID: co.ID, Index: uint16(co.Idx)}},
+		Outs: []regnet.OutSpec{{Addr: to, Value: co.Value - 700, Pay: "-"}}}
+	_, th := sim.N.Tip()
+	tx, err := sim.N.BuildTx(ts, th+1)
+	if err != nil {
+		panic("harness: " + err.Error())
+	}
+	return tx
+}
+
+func transferOf(co regnet.Coin, to int, nonce uint64) interfaces.Transaction {
+	txid := regnet.PadHash(co.ID)
+	if tx := sim.N.TxByID(co.ID); tx != nil {
+		txid = tx.Hash()
+	}
+	tx, err := sim.N.Transfer(co.Addr, []ctypes.OutPoint{{TxID: txid, Index: uint16(co.Idx)}},
+		[]regnet.Out{{To: to, Value: common.Fixed64(co.Value - 500)}}, nonce)
+	if err != nil {
+		panic("harness: " + err.Error())
+	}
+	return tx
+}
+
+// witnessRegisterAsset: a RegisterAsset transaction that carries inputs. UnspentIndex.ConnectBlock and
+// DisconnectBlock skip this transaction type, so if the validator lets such a transaction into a block
+// its inputs stay in the unspent index and can be spent again (finding C06-registerasset-inputs).
+// The history offers one through the pool and inside a block, then re-spends its input both ways.
+func witnessRegisterAsset(g *hx.Gen) {
+	h := &regnet.HistGen{S: sim, R: g.R, Emit: g.Emit}
+	h.Start()
+	br := &regnet.Branch{}
+	for i := 0; i < 4; i++ {
+		b := h.Block(br, nil, regnet.MineOpts{Miner: 1})
+		h.Deliver(b)
+		br = regnet.Extend(br, b)
+	}
+	var co *regnet.Coin
+	for _, c := range sim.Coins(br) {
+		if c.Addr == 1 && c.CB && c.Height == 1 {
+			cc := c
+			co = &cc
+		}
+	}
+	if co == nil {
+		return
+	}
+	ra := otherTx("ra", 1<<46+1, *co, 2)
+	h.Watch = append(h.Watch, co.ID, regnet.ID(ra.Hash()))
+	g.Emit("submit %s", sim.N.DescribeTx(ra))
+	h.Observe(true, 6)
+	b := h.Block(br, []interfaces.Transaction{ra}, regnet.MineOpts{Miner: 1})
+	h.Deliver(b)
+	br2 := regnet.Extend(br, b)
+	h.Observe(true, 6)
+	again := transferOf(*co, 3, 1<<46+2)
+	h.Watch = append(h.Watch, regnet.ID(again.Hash()))
+	g.Emit("submit %s", sim.N.DescribeTx(again))
+	b2 := h.Block(br2, []interfaces.Transaction{again}, regnet.MineOpts{Miner: 1})
+	h.Deliver(b2)
+	h.Observe(true, 6)
+}
+
+// witnessDupCoinbase: block 6 carries a byte-identical copy of block 1's coinbase (same nonce attribute,
+// same lock time) after the miner output of that coinbase was spent in block 4. checkTxsContext runs the
+// context check (with its duplicate-hash test) on every transaction except the coinbase, so the block is
+// connected, the unspent-index entry of the hash is written again, and the output is spent a second time
+// in block 7 (finding C06-duplicate-coinbase).
+func witnessDupCoinbase(g *hx.Gen) {
+	h := &regnet.HistGen{S: sim, R: g.R, Emit: g.Emit}
+	h.Start()
+	br := &regnet.Branch{}
+	var b1 *types.Block
+	for i := 0; i < 3; i++ {
+		b := h.Block(br, nil, regnet.MineOpts{Miner: 1})
+		if i == 0 {
+			b1 = b
+		}
+		h.Deliver(b)
+		br = regnet.Extend(br, b)
+	}
+	cb := b1.Transactions[0]
+	co := regnet.Coin{ID: regnet.ID(cb.Hash()), Idx: 1, Addr: 1, Value: int64(cb.Outputs()[1].Value), Height: 1, CB: true}
+	h.Watch = append(h.Watch, co.ID)
+	spend1 := transferOf(co, 2, 1<<46+3)
+	b4 := h.Block(br, []interfaces.Transaction{spend1}, regnet.MineOpts{Miner: 2})
+	h.Deliver(b4)
+	br = regnet.Extend(br, b4)
+	h.Observe(true, 6)
+	b5 := h.Block(br, nil, regnet.MineOpts{Miner: 2})
+	h.Deliver(b5)
+	br = regnet.Extend(br, b5)
+	b6 := h.Block(br, nil, regnet.MineOpts{CoinbaseOf: b1})
+	h.Deliver(b6)
+	br6 := regnet.Extend(br, b6)
+	h.Observe(true, 6)
+	spend2 := transferOf(co, 3, 1<<46+4)
+	g.Emit("submit %s", sim.N.DescribeTx(spend2))
+	b7 := h.Block(br6, []interfaces.Transaction{spend2}, regnet.MineOpts{Miner: 2})
+	h.Deliver(b7)
+	h.Observe(true, 6)
+	// the same block 7 on the honest parent (if block 6 was refused)
+	b6h := h.Block(br, nil, regnet.MineOpts{Miner: 2})
+	h.Deliver(b6h)
+	h.Observe(true, 6)
 }
 
 func history(g *hx.Gen, steps int) {
@@ -179,7 +290,9 @@ func history(g *hx.Gen, steps int) {
 		spCount++
 		ts := &regnet.TxSpec{Kind: kind, Nonce: fmt.Sprintf("%016x", uint64(1<<45)+uint64(spCount)),
 			Ins: []regnet.InSpec{{TxID: co.ID, Index: uint16(co.Idx)}}}
-		if kind == "rc" {
+		if kind == "ra" {
+			ts.Outs = []regnet.OutSpec{{Addr: r.Intn(5), Value: co.Value - 700, Pay: "-"}}
+		} else if kind == "rc" {
 			ts.PDatas = []string{fmt.Sprintf("%04x", r.Intn(65536))}
 			ts.Outs = []regnet.OutSpec{{Addr: r.Intn(5), Value: co.Value - 700, Pay: "-"}}
 		} else {
@@ -301,8 +414,8 @@ func history(g *hx.Gen, steps int) {
 		}
 		if c >= 82 && c < 88 && len(active.Blocks) >= 4 { // pool: Record / cross-chain transfers against transfers and each other
 			if co := pickCoin(active); co != nil && co.Value > 100000 {
-				kinds := []string{"rc", "xc"}
-				k1, k2 := kinds[r.Intn(2)], kinds[r.Intn(2)]
+				kinds := []string{"rc", "xc", "ra"}
+				k1, k2 := kinds[r.Intn(3)], kinds[r.Intn(3)]
 				switch r.Intn(4) {
 				case 0:
 					submit(rawOther(k1, *co))
